@@ -45,7 +45,9 @@ func (er *ErrorReader) Read(b []byte) (n int, err error) {
 }
 
 func (er *ErrorReader) Drain() {
-	_, _ = io.ReadAll(er.Reader)
+	if _, err := io.ReadAll(er.Reader); err != nil {
+		er.Err = err
+	}
 }
 
 // An ErrorWriter wraps an io.Writer with a reusable buffer for small allocations
